@@ -722,12 +722,14 @@ class PhaseField(_Simu):
         Nn = self.mesh.Nn
 
         values = None
+        onNodes = True  # where the values below are stored
 
         if result in ["Wdef"]:
             return self._Calc_Psi_Elas()
 
         elif result == "Wdef_e":
             values = self._Calc_Psi_Elas(returnScalar=False)
+            onNodes = False
 
         elif result == "Psi_Crack":
             return self._Calc_Psi_Crack()
@@ -741,6 +743,7 @@ class PhaseField(_Simu):
                     for groupElem in self.mesh.Get_list_groupElem()
                 ]
             )
+            onNodes = False
 
         elif result == "damage":
             values = self.damage  # type: ignore [assignment]
@@ -779,6 +782,7 @@ class PhaseField(_Simu):
                 result=res,
                 coef=self.phaseFieldModel.material.coef,
             )
+            onNodes = False
 
         else:
             Terminal.MyPrintError(f"The result '{result}' is not implemented yet.")
@@ -786,7 +790,7 @@ class PhaseField(_Simu):
 
         # end cases ----------------------------------------------------
 
-        return self.Results_Reshape_values(values, nodeValues)
+        return self.Results_Reshape_values(values, nodeValues, onNodes)
 
     def __indexResult(self, result: str) -> int:
         if len(result) <= 2:
